@@ -516,6 +516,24 @@ def handleBatches (ws : List String) : Option String := do
   pure ("ok " ++ ";".intercalate (bs.map fun (s, b) =>
     ",".intercalate (s.toList.map (toString ∘ Char.toNat)) ++ ":" ++ "|".intercalate (b.map showKey)))
 
+/-! ### C19 -/
+def handleAwsDiscover (ws : List String) : Option String := do
+  let vpc := (← arg ws "vpc") = "1"
+  let reply ← Bytes.ofHex (← arg ws "reply")
+  pure (match Aws.discover vpc reply with
+    | some l => "ok " ++ (if l = [] then "EMPTY" else ",".intercalate (l.map fun (a, p) => Bytes.toHex a ++ ":" ++ Bytes.toHex p))
+    | none => "ok NONE")
+
+/-- `aws.reconf advs=<name,name;name,…>` (names hex): the rotation after each reconfiguration from the empty state -/
+def handleAwsReconf (ws : List String) : Option String := do
+  let a ← arg ws "advs"
+  let advs ← (a.splitOn ";").mapM fun l => if l = "-" then some [] else (l.splitOn ",").mapM Bytes.ofHex
+  let orig := (arg ws "orig") = some "1"
+  let step := if orig then Aws.reconfigureOrig else Aws.reconfigure
+  let st := advs.foldl step {}
+  let sh := fun (l : List Bytes) => ",".intercalate (l.map Bytes.toHex)
+  pure s!"ok nodes=[{sh st.nodes}] clients=[{sh st.clients}] closed=[{sh st.closed}]"
+
 /-! ### C15 -/
 def dummyCodec (plen zlen : Nat) : Serde.Codec :=
   { utf8Enc := fun _ => List.replicate plen 0, utf8Dec := fun _ => none,
@@ -577,6 +595,8 @@ def handle (ws : List String) : String :=
     | "pool" :: rest => handlePool rest
     | "pooled" :: rest => handlePooled rest
     | "serde" :: rest => handleSerde rest
+    | "aws.discover" :: rest => handleAwsDiscover rest
+    | "aws.reconf" :: rest => handleAwsReconf rest
     | "batches" :: rest => handleBatches rest
     | "cserde" :: rest => handleCSerde rest
     | "pool.seq" :: rest => handlePoolSeq rest
